@@ -1,4 +1,5 @@
 import AsyncVerif.Proofs.AggValues
+import AsyncVerif.Proofs.SetDict
 /-!
 # C02 — aggregations return the standard-library result
 
@@ -575,5 +576,59 @@ example : (Impl.reduce 1 none 0 5 (exampleWorld [.int 1, .int 2, .int 4])).1 = .
 /-- an unorderable key among two or more items (hypothesis of `C02_sorted_unorderable`) -/
 example : 2 ≤ [Val.int 1, .none].length ∧ ∃ x ∈ [Val.int 1, .none], ((fun x => x) x).orderable = false :=
   ⟨by decide, .none, by simp, rfl⟩
+
+/-! ## set / dict -/
+
+/-- asyncstdlib `set` and CPython `set(iterable)` are twins in every world (faults, unhashable elements included) -/
+theorem C02_set_twin (s fuel : Nat) : Twin (Impl.set s fuel) (Std.set s fuel) := scopedIter_twin s _
+
+/-- asyncstdlib `dict` (no keyword arguments) and CPython `dict(iterable)` are twins in every world -/
+theorem C02_dict_twin (s fuel : Nat) : Twin (Impl.dict s fuel) (Std.dict s fuel) := scopedIter_twin s _
+
+/-- asyncstdlib `set`: on hashable items the result is the set of the items — modelled by its distinct elements
+    in first-occurrence order, an element equal (`==` and same hash) to an earlier one being dropped — and the
+    whole source is consumed. -/
+theorem C02_set_value (s fuel : Nat) (items : List Val) (w : World)
+    (hf : Feeds w s items) (hh : ∀ x ∈ items, Std.hashable x = true) (hlt : items.length < fuel) :
+    (Impl.set s fuel w).1 = .ok (.lst (distinct [] items)) ∧
+    ((Impl.set s fuel w).2.srcs s).script = [] ∧
+    (Impl.set s fuel w).2.vis = w.vis ++ pullLog s items ++ endLog s := by
+  obtain ⟨h1, h2, h3, -⟩ := scopedIter_lift s (Std.set s fuel) w
+  unfold Impl.set
+  rw [h1, h2, h3]
+  have h := setLoop_value s items [] fuel w hf hh hlt
+  unfold Std.set
+  rcases hc : Std.setLoop s [] fuel w with ⟨r, w1⟩
+  rw [hc] at h
+  obtain ⟨hr, hs, hv⟩ := h
+  simp only at hr hs hv
+  subst hr
+  simp [bind_apply, hc, pure_apply, hs, hv, Std.setVal]
+
+/-- asyncstdlib `dict` over `(key, value)` pairs with hashable keys: every key appears once, at the position and
+    with the key object of its first occurrence and the value of its last; the whole source is consumed. -/
+theorem C02_dict_value (s fuel : Nat) (pairs : List (Val × Val)) (w : World)
+    (hf : Feeds w s (pairs.map fun p => Val.tup [p.1, p.2])) (hh : ∀ p ∈ pairs, Std.hashable p.1 = true)
+    (hlt : pairs.length < fuel) :
+    (Impl.dict s fuel w).1 = .ok (Std.dictVal (dictOf [] pairs)) ∧
+    ((Impl.dict s fuel w).2.srcs s).script = [] ∧
+    (Impl.dict s fuel w).2.vis = w.vis ++ pullLog s (pairs.map fun p => Val.tup [p.1, p.2]) ++ endLog s := by
+  obtain ⟨h1, h2, h3, -⟩ := scopedIter_lift s (Std.dict s fuel) w
+  unfold Impl.dict
+  rw [h1, h2, h3]
+  have h := dictLoop_value s pairs [] fuel w hf hh hlt
+  unfold Std.dict
+  rcases hc : Std.dictLoop s [] fuel w with ⟨r, w1⟩
+  rw [hc] at h
+  obtain ⟨hr, hs, hv⟩ := h
+  simp only at hr hs hv
+  subst hr
+  simp [bind_apply, hc, pure_apply, hs, hv]
+
+/-- equal-but-distinguishable elements: the first object stays -/
+example : distinct [] [.obj 1 0, .obj 2 1, .obj 3 0, .int 1, .bool true] = [.obj 1 0, .obj 2 1, .int 1] := by rfl
+/-- a repeated key keeps its first key object and position and takes the last value -/
+example : dictOf [] [(.obj 1 0, .int 10), (.obj 2 1, .int 11), (.obj 3 0, .int 12)]
+    = [(.obj 1 0, .int 12), (.obj 2 1, .int 11)] := by rfl
 
 end AsyncVerif
